@@ -3,11 +3,13 @@
 EXTENDS GenTd
 O1 == NGraphs
 O2 == O1 + NAtoms
-Count == O2 + NRandDocs
+O3 == O2 + NRandDocs
+Count == O3 + Len(Memberless)
 ItemAt(g) ==
   IF g <= O1 THEN GraphAt(g)
   ELSE IF g <= O2 THEN AtomAt(g - O1)
-  ELSE RandDocAt(g - O2)
+  ELSE IF g <= O3 THEN RandDocAt(g - O2)
+  ELSE MemberlessAt(g - O3)
 VARIABLE n
 INSTANCE GenBase
 =============================================================================
